@@ -8,7 +8,7 @@ HARNESS = "b_codecB_merkle"
 def cfg_text(spec, max_n, max_k, tear, mut_level, invariants, properties, edges=True, big=False):
     lines = ["SPECIFICATION %s" % spec, "CONSTANTS",
              "  MaxN = %d" % max_n, "  MaxK = %d" % max_k,
-             "  EqRootShortcut = TRUE", "  ZeroOldShortcut = TRUE",
+             "  EqRootShortcut = FALSE", "  EqSizeIgnoresProof = TRUE", "  ZeroOldShortcut = TRUE",
              "  Tear = %s" % ("TRUE" if tear else "FALSE"), "  MutLevel = %d" % mut_level,
              "  BigInit <- GenBig", "  Pairs <- GenPairs",
              "VIEW view", "INVARIANTS " + " ".join(invariants), "PROPERTIES " + " ".join(properties)]
